@@ -68,6 +68,6 @@ structure Opt where
   /-- the dataclass default; `id_database_dir`'s default is computed by `platformdirs` at import
       time and appears as the sentinel `"$STATE_DIR"` -/
   default : Val
-deriving Repr, Inhabited
+deriving DecidableEq, Repr, Inhabited
 
 end Tup.Config
